@@ -230,7 +230,8 @@ def classify(job, bad):
 def layered_state(st):
     tm = st["tm"]
     tw = st.get("tw")
-    return [st["e"], st["obl"], st["orb"], st["spin"], list(tm) if tm else [], tw if isinstance(tw, int) else []]
+    per_layer = [list(x) if x else [] for x in tm]          # tm is a function over the tidal layers
+    return [st["e"], st["obl"], st["orb"], st["spin"], per_layer, tw if isinstance(tw, int) else []]
 
 
 def layered_part(ck, tier, rng):
@@ -256,6 +257,17 @@ def layered_part(ck, tier, rng):
             part = behs[i::nchunk]
             if part:
                 jobs.append({"sync": sync, "obl_on": obl, "behaviours": part})
+    # two tidally active layers (earth_simple): each with its own temperature / strength; nothing is exposed until both are set
+    r2 = run_tlc("LayeredTides", "LayeredTides_2layers.cfg", coverage=True, timeout=900)
+    ck.add_tlc(r2, "LayeredTides with two tidal layers (complete graph)")
+    if not r2.ok:
+        ck.violation({"clause": "layered_model", "invariant": r2.violated}, "TLC: %s violated on LayeredTides_2layers" % r2.violated, {"trace": [str(t)[:1500] for t in (r2.trace or [])]})
+    else:
+        b2 = graph_walks(ck, "LayeredTides", "LayeredTides_2layers.cfg", layered_state, rng, 600 if tier == "quick" else 10 ** 9, "layered 2 tidal layers")
+        nchunk = 1 if tier == "quick" else 6
+        for i in range(nchunk):
+            if b2[i::nchunk]:
+                jobs.append({"sync": True, "obl_on": True, "nlayers": 2, "behaviours": b2[i::nchunk]})
     if not jobs:
         return
     wd = scratch("c13layered")
